@@ -2,6 +2,7 @@
 import TF.Drv.Proto
 import TF.Model.MmrAcc
 import TF.Model.HashTip5
+import TF.Gen.MmrPeaksLoops
 /-!
 driver handler for the family `mmra` (C11): a whole accumulator history is one op line
 
@@ -45,16 +46,31 @@ def proofs? : Arg → Option (List (List Dg))
   | .list xs => xs.mapM Arg.natListList?
   | _ => none
 
+/-! the peak calculations **regenerated from source** (`TF/Gen/MmrPeaksLoops.lean`, tools/rs2lean_bt4.py) evaluated next to the
+hand model on every append / mutation: a false `_ok` flag is a panic (`none`); a difference is printed as `GEN-MISMATCH`
+(and therefore shows up as a disagreement with the implementation) -/
+def genAppendAgrees (a : Acc Dg) (l : Dg) : Bool :=
+  let g := if TF.Gen.Loops.mmr_calculate_new_peaks_from_append_ok H [] a.leaf_count a.peaks l
+    then TF.Gen.Loops.mmr_calculate_new_peaks_from_append H [] a.leaf_count a.peaks l else none
+  g == calculate_new_peaks_from_append H a.leaf_count a.peaks l
+
+def genMutateAgrees (a : Acc Dg) (i : Nat) (l : Dg) (p : List Dg) : Bool :=
+  let g := if TF.Gen.Loops.mmr_calculate_new_peaks_from_leaf_mutation_ok H [] a.peaks a.leaf_count l i p
+    then TF.Gen.Loops.mmr_calculate_new_peaks_from_leaf_mutation H [] a.peaks a.leaf_count l i p else none
+  g == calculate_new_peaks_from_leaf_mutation H a.peaks a.leaf_count l i p
+
 /-- one step: new state and the text of the record -/
 def step (a : Acc Dg) : Arg → Option (Acc Dg × String)
   | .tup [.sym "a", leaf] => do
       let l ← leaf.natList?
+      if !genAppendAgrees a l then pure (a, "GEN-MISMATCH calculate_new_peaks_from_append") else
       match append H a l with
       | some (a', ap) => pure (a', s!"{fmtState a'}{fmtListList ap}")
       | none => pure (a, "panic")
   | .tup [.sym "m", .nat i, leaf, ap] => do
       let l ← leaf.natList?
       let p ← ap.natListList?
+      if !genMutateAgrees a i l p then pure (a, "GEN-MISMATCH calculate_new_peaks_from_leaf_mutation") else
       match mutate_leaf H a { leaf_index := i, new_leaf := l, auth := p } with
       | some a' => pure (a', fmtState a')
       | none => pure (a, "panic")
